@@ -143,7 +143,7 @@ func GenNodes(rt *rapid.T, lo, hi int) []NodeSpec {
 	var out []NodeSpec
 	for i := 0; i < n; i++ {
 		out = append(out, NodeSpec{Name: fmt.Sprintf("node%d", i), Labels: GenLabels(rt, "nlabels"), IPs: []string{fmt.Sprintf("192.168.0.%d", i+1)},
-			Unavailable: rapid.IntRange(0, 5).Draw(rt, "unavail") == 0, Excluded: rapid.IntRange(0, 5).Draw(rt, "excluded") == 0})
+			Unavailable: rapid.IntRange(0, 5).Draw(rt, "unavail") == 0}.WithExcl(GenExcl(rt, 6)))
 	}
 	return out
 }
